@@ -121,7 +121,37 @@ def run(ctx):
                           "impl": [x[:90] for x in outs[-2:]], "model": [x[:90] for x in mouts[-2:]]})
         elif len(samples) < 4 and outs[-1].startswith("str:"):
             samples.append({"hdr16": c["hdr16"], "nblocks": len(c["blocks"]), "key_block": core.unshow_str(outs[-1][4:])[:70] + "..."})
-    return {"evaluations": len(cases), "distinct_nontrivial": len(seen), "samples": samples, "distribution": dist,
+    # --- one reused object serialised under one version, switched to another block size, serialised again
+    seqs = []
+    for v1, v2 in (("B", "D"), ("A", "D"), ("D", "B"), ("C", "D"), ("D", "C")):
+        for _ in range(ctx.n(3, 12)):
+            c = t.gen_case(rng, version=v1, profile=rng.choice(["few", "few", "boundary"]), keylen=rng.choice([8, 16, 24]), mask=None)
+            c["kbpk"] = rng.randbytes(16)
+            ops = t.setup_ops(c) + [("S",), ("W", c["key"], None), ("F", 0, v2), ("S",), ("W", c["key"], None), ("F", 0, v1), ("S",)]
+            seqs.append((c, ops))
+    both, mops = t.run_both([(c["kbpk"], ops) for c, ops in seqs])
+    for (c, ops), (impl, model) in zip(seqs, both):
+        if impl != model:
+            diffs.append({"sequence": [core.op_token(o_)[:60] for o_ in ops], "impl": [x[:70] for x in impl[1][-5:]], "model": [x[:70] for x in model[1][-5:]]})
+        ver = c["version"]
+        for o_, out in zip(ops, impl[1]):
+            if o_[0] == "F" and o_[1] == 0 and out == "none":
+                ver = o_[2]
+            if o_[0] == "W" and out.startswith("str:"):
+                c2 = dict(c)
+                c2["version"] = ver
+                errs = framing_errors(c2, core.unshow_str(out[4:]))
+                if errs:
+                    viol.append({"what": "key block emitted after a version switch on a reused header is not well-framed: " + "; ".join(errs),
+                                 "input": {"ops": [core.op_token(x)[:100] for x in ops]}, "expected": "framing rules for version " + ver,
+                                 "observed": core.unshow_str(out[4:])[:100]})
+            if o_[0] == "S" and out.startswith("str:"):
+                txt = core.unshow_str(out[4:])
+                if len(txt) % t.BS[ver]:
+                    viol.append({"what": "header string after a version switch is not a multiple of the block size",
+                                 "input": {"ops": [core.op_token(x)[:100] for x in ops]}, "expected": t.BS[ver], "observed": txt[:80]})
+    dist["version_switch_sequences"] = len(seqs)
+    return {"evaluations": len(cases) + len(seqs), "distinct_nontrivial": len(seen), "samples": samples, "distribution": dist,
             "diffs": diffs, "violations": viol,
             "rule": "versions x block data lengths over every residue of the block size and around 251/252, 97..100 blocks, "
                     "totals near 9999, random layouts x key lengths x masks; each emitted block checked against the framing "
